@@ -318,6 +318,12 @@ def compiled(g0: int, a0: int, b0: int, g1: int, a1: int, b1: int, g2: int, a2: 
             return 'is_compatible-false-on-native-output', inp, res
         return None, inp, res
     fp, inp, res = rt.nt(run)
+    if fp is not None and fp.startswith('compile-raised:'):
+        # C02 speaks about circuits that compile() RETURNS; a compile() that raises on an accepted input is C01's
+        # subject (where "Coupling graph is not fully connected." is a listed finding). Not counted as reached.
+        if rt.CONCRETE:
+            rt.log('compile() raised - outside C02 (no circuit returned):', fp)
+        return True
     rt.reach()
     if rt.CONCRETE:
         rt.log('gate set', gsname, 'level', level, 'input', repr(inp))
